@@ -442,3 +442,35 @@ func init() {
 		Outside: []string{"kernel descriptors, real sockets, long churn runs"},
 	})
 }
+
+var c18Commands = []string{"SET", "GET", "GETSET", "SETNX", "APPEND", "STRLEN", "MSET", "MGET", "DEL", "EXISTS", "TYPE", "RENAME", "RENAMENX", "KEYS",
+	"HSET", "HGET", "HDEL", "HLEN", "HGETALL", "LPUSH", "RPUSH", "LPOP", "RPOP", "LPOPN", "RPOPN", "LRANGE", "LINDEX", "LLEN",
+	"SADD", "SREM", "SMEMBERS", "SCARD", "SISMEMBER", "ZADD", "ZREM", "ZSCORE", "ZCARD", "ZINCRBY", "ZRANGE", "ZRANGEBYSCORE"}
+
+func init() {
+	register(&Prop{
+		ID: "C18",
+		Jobs: func(rc *RunCtx) []JobSpec {
+			var js []JobSpec
+			me, bt := "2", "2"
+			if rc.Tier == "thorough" {
+				me, bt = "3", "6"
+			}
+			for _, c := range c18Commands {
+				js = append(js, JobSpec{Set: "server", Fn: "HarnessC18Step", Params: p("cmd", c, "maxelems", me, "btypes", bt, "fixednow", "1"), Split: 5})
+			}
+			return js
+		},
+		RequiredCovers: map[string][]string{"HarnessC18Step": {"end"}},
+		Bounds: func(tier string) map[string]interface{} {
+			return map[string]interface{}{"method": "one inductive step: symbolic pre-state under the representation invariant (set: no duplicates; sorted set: ascending by score, one entry per member; hash: Go map), one command, reply and post-state compared with an executable Redis model", "pre_state": "key a: absent | string (0..2 symbolic bytes) | list | set | sorted set | hash of 1..2 (thorough 3) one-byte symbolic elements; key b: absent | string (thorough: any type); key c absent", "commands": c18Commands, "arguments": "keys from {a,b,c}; members, fields and values symbolic one-byte strings (collisions decided by the solver); scores from {0,1,1.5,2,2.5,3,4}; indexes -3..3; score bounds incl. exclusive and infinities; LIMIT offset 0..2 count -1..2"}
+		},
+		Assumptions: append([]string{
+			"each key is used with one data type (combinations that would mix types are assumed away, as in the property)",
+			"error texts are not compared, only that the reply is an error",
+			"invariant preservation is asserted after every step, so the single step speaks for single-client programs of any length over states satisfying the invariant",
+			"expiry is outside the claim; the clock is concrete in this check",
+		}, commonAssumptions...),
+		Outside: []string{"containers larger than the bound", "keys used with two types", "ZADD option flags, ZRANGE REV/BYSCORE forms, SET option flags (interface-rooted reply shapes)"},
+	})
+}
